@@ -8,6 +8,7 @@ meaning, including constraints over views and (half-)reified constraints.
 -/
 import Pumpkin.Spec.Basic
 import Pumpkin.Check.Oracle
+import Pumpkin.Model.PropagationChecks
 
 namespace Pumpkin.C01
 
@@ -43,5 +44,39 @@ example :
     let m : Model := { doms := [[0, 2, 5], [0, 1]],
                        cons := [Cons.reif (Atom.ge 1 1) (Cons.linLe [⟨-2, 1, 0⟩] (-3))] }
     m.sat [2, 1] = true ∧ m.sat [2, 0] = false ∧ m.sat [1, 1] = false := by decide
+
+
+/-! ### why "no decision left, fixpoint, no conflict" is a solution
+
+The solver hands out the current assignment when the brancher has no decision left, i.e. every
+variable is fixed, propagation is at its fixpoint and no conflict was reported. Over the propagator
+models of `Model/Propagation.lean` (tied to the real propagation by the exact `fix` correspondence:
+the last record of every satisfiable solve is exactly such a state) this is a theorem: -/
+
+/-- **A full assignment whose propagation fixpoint reports no conflict satisfies the whole model**,
+for every model of the modelled constraint kinds (linear ≤ = ≠, times, division, absolute value,
+maximum / minimum, element, all-different, clauses, conjunctions, negation, half and full
+reification, over arbitrary views). `Pre` are the preconditions the real propagators assert
+(denominator ≠ 0, `maximum` over a non-empty array). -/
+theorem fixed_fixpoint_is_solution (m : Model) (hw : ∀ c ∈ m.cons, Pg.consWf m.doms.length c)
+    (ps : List Pg.PropInst) (hc : Pg.compileAll m.doms m.cons = some ps) (a : List Int)
+    (hin : inDoms m.doms a = true) (hpre : ∀ p ∈ ps, p.Pre a) (d' : Pg.Doms)
+    (hf : Pg.fixpoint ps (Pg.sing a) = some d') : m.sat a = true :=
+  Pg.full_assignment_fixpoint_is_solution m hw ps hc a hin hpre d' hf
+
+/-- … and conversely a solution is never rejected: the fixpoint at a solution is the solution. -/
+theorem solution_is_fixed_fixpoint (n : Nat) (ps : List Pg.PropInst) (hw : ∀ p ∈ ps, p.Wf n) (a : List Int)
+    (hl : a.length = n) (hsat : ∀ p ∈ ps, p.cons.sat a = true) : ∃ d', Pg.fixpoint ps (Pg.sing a) = some d' := by
+  have hin : inDoms (Pg.sing a) a = true := by
+    clear hl hsat hw
+    induction a with
+    | nil => rfl
+    | cons v vs ih => simp [Pg.sing, inDoms] at ih ⊢; exact ih
+  obtain ⟨d', e, _, _⟩ := Pg.fixpoint_ok ps hw hsat (Pg.sing a) hin (by simp [Pg.sing, hl])
+  exact ⟨d', e⟩
+
+-- a violated constraint is detected at the full assignment, a satisfied one is not
+example : Pg.fixpoint [.div ⟨1, 0, 0⟩ ⟨1, 0, 1⟩ ⟨1, 0, 2⟩] (Pg.sing [-7, 2, -4]) = none := by decide
+example : Pg.fixpoint [.div ⟨1, 0, 0⟩ ⟨1, 0, 1⟩ ⟨1, 0, 2⟩] (Pg.sing [-7, 2, -3]) = some (Pg.sing [-7, 2, -3]) := by decide
 
 end Pumpkin.C01
